@@ -1,5 +1,7 @@
 import HawkModel.OomLemmas
 import HawkModel.Gen.Unwind
+import HawkModel.Gen.UnwindWide
+import HawkModel.OomRelLemmas
 import HawkModel.Props.C19
 /-!
 # C10 — Running out of memory is an error, never a crash or a leak
@@ -19,9 +21,15 @@ Property theorems only (helpers: OomLemmas).  Models: `HawkModel/Oom.lean`; the 
   representation invariant survives every operation, a refused growth is reported.
 * arr: corollary of C19's `insert_spec`.
 
-What is NOT carried here: the several thousand individual `if (!p)` branches of parse.c/run.c/…;
-they are enumerated by the fault-injection harness (harness/oom_h.c), which supports but does not
-replace these theorems.
+* every other function of lib/*.c with two or more acquisition sites that extract/unwind_wide.py can express
+  (`Gen.Wide.all`, `Gen.Wide.allFt`: one table per acyclic path; the second table language `Ft` has releases
+  of temporaries on the main path): same law, `wide_balanced`, `wide_ft_balanced`, `ft_unwind_balanced`.
+  The functions it cannot express are listed by name in `Gen.Wide.unhandled` and in the evidence.
+* retry and error-number plumbing over whole call trees: `Props/C10b.lean`.
+
+What is NOT carried here: the `if (!p)` branches of the functions listed in `Gen.Wide.unhandled` and of the
+functions with a single acquisition site; they are enumerated by the fault-injection harness
+(harness/oom_h.c), which supports but does not replace these theorems.
 -/
 namespace Hawk.Oom
 
@@ -482,6 +490,83 @@ theorem ecs_nccat_prefix (c : Nat) : ∀ (n : Nat) (e : Ecs) (o : Oracle), e.WF 
 /-- non-vacuity: an empty string without a buffer, the only growth request refused -/
 example : (Ecs.nccat { chars := [], capa := 0, hasPtr := false } 9 3 [false]).ret = .error .enomem := by
   simp [Ecs.nccat, Ecs.ncat, Ecs.resizeForNcat, Ecs.growLoop, Ecs.setcapa, Oracle.next, Ecs.len]
+
+/-! ### every multi-acquisition function of lib/*.c that extract/unwind_wide.py can express
+
+  `Gen.Wide.all` (first table language) and `Gen.Wide.allFt` (second language, with releases of temporaries on
+  the main path; one table per acyclic path through the function) are regenerated on every check.  The functions
+  the translator cannot express and the ones whose table does not pass the law are listed by name in
+  `Gen.Wide.unhandled` / `Gen.Wide.notEstablished` and in the evidence (measured coverage). -/
+
+/-- every wide table of the first language passes the check, hence is balanced under every failure pattern -/
+theorem wide_balanced (c : Ctor) (hc : c ∈ Gen.Wide.all) (fail : Nat → Bool) :
+    (run c.table fail).ok = false → Balanced (run c.table fail) :=
+  unwind_balanced c.table (List.all_eq_true.mp Gen.Wide.all_wf c hc) fail
+
+/-- … and reports every failing acquisition / fallible step (no success return) -/
+theorem wide_failure_reported (c : Ctor) (hc : c ∈ Gen.Wide.all) (k : Nat) (op : Op)
+    (hj : c.table.ops[k]? = some op) (hh : op.hard = true) :
+    (run c.table (failAt k)).ok = false ∧ (run c.table (failFrom k)).ok = false :=
+  ⟨failAt_fails c.table (List.all_eq_true.mp Gen.Wide.all_wf c hc) k op hj hh,
+   failFrom_fails c.table (List.all_eq_true.mp Gen.Wide.all_wf c hc) k op hj hh⟩
+
+/-- nothing leaks, nothing is released twice, nothing that is not held is released, and nothing that was already
+    released on the main path is released again -/
+def Ft.Balanced (o : Ft.Outcome) : Prop :=
+  o.held.Nodup ∧ o.released.Perm o.held ∧ ∀ r, r ∈ o.freed → r ∉ o.released
+
+/-- **ft_unwind_balanced** — second table language (functions that release temporaries on the main path): for a
+    table that passes the check and EVERY pattern of failing steps, a failing run releases exactly what is
+    still held at the failing step, each once, and never again what the main path had already released. -/
+theorem ft_unwind_balanced (t : Ft.Table) (hwf : t.wf = true) (fail : Nat → Bool) :
+    (Ft.run t fail).ok = false → Ft.Balanced (Ft.run t fail) := by
+  intro hk
+  obtain ⟨h1, h2, h3, _⟩ := Ft.runFrom_spec t fail t.ops 0 [] [] hwf List.nodup_nil (by simp)
+  obtain ⟨hn, hm⟩ := h3 hk
+  refine ⟨h1, (List.perm_ext_iff_of_nodup hn h1).mpr hm, ?_⟩
+  intro r hr hrel
+  exact h2 r hr ((hm r).mp hrel)
+
+/-- **ft_failure_reported** — no refusal is swallowed: a run that reports success had no failing acquisition and no
+    failing fallible step; in particular "the k-th step fails" and "every step from the k-th on fails" make the
+    function fail when step k is an acquisition or a fallible step. -/
+theorem ft_failure_reported (t : Ft.Table) (fail : Nat → Bool) (hk : (Ft.run t fail).ok = true)
+    (j : Nat) (op : Ft.Op) (hj : t.ops[j]? = some op) (hh : op.hard = true) : fail j = false := by
+  have := Ft.ok_no_hard_failure t fail t.ops 0 [] [] hk j op hj hh
+  simpa using this
+
+theorem ft_failAt_fails (t : Ft.Table) (k : Nat) (op : Ft.Op) (hj : t.ops[k]? = some op) (hh : op.hard = true) :
+    (Ft.run t (failAt k)).ok = false ∧ (Ft.run t (failFrom k)).ok = false := by
+  constructor
+  · cases hk : (Ft.run t (failAt k)).ok with
+    | false => rfl
+    | true => have := ft_failure_reported t (failAt k) hk k op hj hh; simp [failAt] at this
+  · cases hk : (Ft.run t (failFrom k)).ok with
+    | false => rfl
+    | true => have := ft_failure_reported t (failFrom k) hk k op hj hh; simp [failFrom] at this
+
+/-- a successful run released nothing on a failure exit (what it still holds belongs to its result) -/
+theorem ft_success_no_unwind (t : Ft.Table) (hwf : t.wf = true) (fail : Nat → Bool) :
+    (Ft.run t fail).ok = true → (Ft.run t fail).released = [] ∧ (Ft.run t fail).held.Nodup ∧
+      ∀ r, r ∈ (Ft.run t fail).freed → r ∉ (Ft.run t fail).held := by
+  intro hk
+  obtain ⟨h1, h2, _, h4⟩ := Ft.runFrom_spec t fail t.ops 0 [] [] hwf List.nodup_nil (by simp)
+  exact ⟨h4 hk, h1, h2⟩
+
+/-- **wide_ft_balanced** — every function table extracted from lib/*.c in the second language is balanced under
+    every failure pattern (the generated file decides `wf` for each of them). -/
+theorem wide_ft_balanced (f : Ft.Fn) (hf : f ∈ Gen.Wide.allFt) (fail : Nat → Bool) :
+    (Ft.run f.table fail).ok = false → Ft.Balanced (Ft.run f.table fail) :=
+  ft_unwind_balanced f.table (List.all_eq_true.mp Gen.Wide.allFt_wf f hf) fail
+
+/-- non-vacuity: the check of the second language rejects a leak of a temporary (the failure exit of the second
+    acquisition forgets the first), a double release (the temporary is released on the main path AND by a later
+    failure exit) and accepts the correct function -/
+example : Ft.Table.wf { ops := [.acq 0 0, .acq 1 1, .rel 0], labels := [[], []] } = false := by decide
+example : Ft.Table.wf { ops := [.acq 0 0, .rel 0, .acq 1 1], labels := [[], [0]] } = false := by decide
+example : Ft.Table.wf { ops := [.acq 0 0, .acq 1 1, .rel 0, .guard 2], labels := [[], [0], [1]] } = true := by decide
+example : (Ft.run { ops := [.acq 0 0, .acq 1 1, .rel 0, .guard 2], labels := [[], [0], [1]] } (failAt 3)).released = [1] ∧
+          (Ft.run { ops := [.acq 0 0, .acq 1 1, .rel 0, .guard 2], labels := [[], [0], [1]] } (failAt 3)).freed = [0] := by decide
 
 /-! ### arr (C19's model) -/
 
